@@ -233,7 +233,9 @@ Line ==
          r == Trace[l].r
      IN CASE a.k = "reset" ->
                /\ run' = a.name /\ fork' = ForkIdx(a.kind) /\ xeip' = (a.code = 3860)
-               /\ acl' = [a |-> {a.warm[i] : i \in {j \in 1..Len(a.warm) : ~HasSlash(a.warm[j])}}, s |-> {a.warm[i] : i \in {j \in 1..Len(a.warm) : HasSlash(a.warm[j])}}]
+               \* (a declared storage key also declares its address: 40 hex digits before the slash)
+               /\ acl' = [a |-> {IF HasSlash(a.warm[i]) THEN SubSeq(a.warm[i], 1, 40) ELSE a.warm[i] : i \in 1..Len(a.warm)},
+                          s |-> {a.warm[i] : i \in {j \in 1..Len(a.warm) : HasSlash(a.warm[j])}}]
                /\ fs' = <<>> /\ calls' = <<>> /\ open' = <<>>
                /\ jpx' = [on |-> a.top = 1, pos |-> 0, exp |-> <<>>, i |-> 0]
                /\ balx' = [exp |-> <<>>, got |-> <<>>] /\ rfx' = [seen |-> FALSE, ref |-> 0, ok |-> FALSE]
